@@ -2363,3 +2363,88 @@ SILENT = [
     dict(name='bootstrapper quotes the file differently', edits=[
         (BOOT, "final_state=$(cat ./killme.signal)", "final_state=$(cat killme.signal)")]),
 ]
+
+
+# ------------------------------------------------------------------------------
+# behaviour-preserving refactorings of the robustness corpus as silence variants
+#
+def corpus_variants(pid, root='/repo', seeded=None):
+    """SILENT entries built from /verif/seeded/<pid>-r<n>/patch.diff: every
+    hunk becomes one (file, old, new) text edit.  A patch whose hunks do not
+    apply exactly once to the tree as it is now is left out."""
+    import glob
+    import json
+    seeded = seeded or os.path.join(os.path.dirname(os.path.dirname(
+        os.path.dirname(os.path.abspath(__file__)))), 'seeded')
+    out = []
+    for patch in sorted(glob.glob(os.path.join(seeded, '%s-r*' % pid,
+                                               'patch.diff'))):
+        tag = os.path.basename(os.path.dirname(patch))
+        meta = os.path.join(os.path.dirname(patch), 'meta.json')
+        try:
+            if os.path.exists(meta) and \
+                    json.load(open(meta)).get('kind') != 'refactoring':
+                continue
+            edits = _edits_from_patch(open(patch).read())
+        except Exception:
+            continue
+        ok = bool(edits)
+        texts = {}
+        for rel, old, new in edits:
+            try:
+                src = texts.get(rel)
+                if src is None:
+                    with open(os.path.join(root, 'src/radical/pilot', rel),
+                              encoding='utf-8') as fh:
+                        src = fh.read()
+            except OSError:
+                ok = False
+                break
+            if src.count(old) != 1:
+                ok = False
+                break
+            texts[rel] = src.replace(old, new)
+        if ok:
+            out.append(dict(name='corpus %s (behaviour-preserving '
+                            'refactoring)' % tag, edits=edits))
+    return out
+
+
+def _edits_from_patch(text):
+    edits = []
+    rel = None
+    old, new = [], []
+
+    def flush():
+        if rel and (old or new) and old != new:
+            edits.append((rel, ''.join(old), ''.join(new)))
+    for line in text.splitlines(True):
+        if line.startswith('diff --git') or line.startswith('index ') or \
+                line.startswith('--- '):
+            continue
+        if line.startswith('+++ '):
+            flush()
+            old, new = [], []
+            path = line[4:].strip()
+            path = path[2:] if path.startswith('b/') else path
+            pre = 'src/radical/pilot/'
+            rel = path[len(pre):] if path.startswith(pre) else None
+            continue
+        if line.startswith('@@'):
+            flush()
+            old, new = [], []
+            continue
+        if rel is None:
+            continue
+        if line.startswith('-'):
+            old.append(line[1:])
+        elif line.startswith('+'):
+            new.append(line[1:])
+        elif line.startswith(' ') or line == '\n':
+            old.append(line[1:] if line.startswith(' ') else line)
+            new.append(line[1:] if line.startswith(' ') else line)
+    flush()
+    return edits
+
+
+SILENT += corpus_variants('C14')
